@@ -24,6 +24,11 @@ pub struct Response<Body> {
 impl<Body> Response<Body> {
     /// Create a new instance.
     pub(crate) async fn new(mut res: super::ResponseAsync) -> crate::Result<Response<Vec<u8>>> {
+        // Copy the headers first: taking the body out of an http-types response adds a
+        // `content-type` header to it when there is none.
+        let headers: &Headers = res.as_ref();
+        let headers = headers.clone();
+
         let body = res.body_bytes().await?;
         let status = res.status();
 
@@ -34,9 +39,6 @@ impl<Body> Response<Body> {
                 body: Some(body),
             });
         }
-
-        let headers: &Headers = res.as_ref();
-        let headers = headers.clone();
 
         Ok(Response {
             status: res.status(),
